@@ -203,6 +203,20 @@ func isSdkContext(t types.Type) bool {
 	return namedTypePath(t) == pkgSdkTypes+".Context" && !isPointer(t)
 }
 
+// ctxArg: the sdk.Context carried by a call operand (directly, or boxed into a context.Context parameter as the SDK 0.50 keepers take it).
+func ctxArg(a ssa.Value) (ssa.Value, bool) {
+	if isSdkContext(a.Type()) {
+		return a, true
+	}
+	if namedTypePath(a.Type()) == "context.Context" {
+		s := strip(a)
+		if isSdkContext(s.Type()) {
+			return s, true
+		}
+	}
+	return nil, false
+}
+
 func isPointer(t types.Type) bool {
 	_, ok := types.Unalias(t).(*types.Pointer)
 	return ok
